@@ -212,6 +212,18 @@ func cmdCheck(args []string) int {
 	if len(slowest) > 5 {
 		slowest = slowest[:5]
 	}
+	// recorded defects that no obligation expresses (found by replay only, e.g. by a seed-writing agent): the recorded
+	// input is re-run on the real code; while it still fails the finding is reported, once it passes it is stale
+	for _, kf := range findings.Findings {
+		if kf.Property != prop || kf.Status != "known" || !strings.HasPrefix(kf.Obligation, "replay-only:") || kf.Replay == "" {
+			continue
+		}
+		if confirmed, _ := runKnownReplay(cfg, kf.Replay); confirmed {
+			line := fmt.Sprintf("KNOWN-FINDING: property=%s %s — %s (replayed on the real code: still fails)", kf.Property, kf.Obligation, kf.What)
+			fmt.Println(line)
+			knownList = append(knownList, line)
+		}
+	}
 	// bounded stand-ins registered for this property
 	var bounded []map[string]any
 	bviol := runBounded(cfg, prop, tier, &bounded)
